@@ -302,3 +302,46 @@ def expected_verify(root, top='Manifest', path='', last_mtime=None):
     else:
         v.kind = 'match'
     return v
+
+
+def expected_path_verify(root, top, path):
+    """Reference for single-path verification (assert_path_verifies):
+    -> ('pass'|'mismatch'|'dontcare', detail)"""
+    v = Verdict()
+    load_chain(root, top, path, v, recursive=False)
+    if v.dc or not v.manifests:
+        return ('dontcare', v.dc[:1])
+    if v.chain_broken:
+        return ('mismatch', 'chain:' + v.chain_broken[0])
+    ignored = False
+    found = []
+    for mp, ents in v.manifests.items():
+        d = os.path.dirname(mp)
+        if not comp_prefix(path, d):
+            continue
+        for e in ents:
+            if e[0] in ('TIMESTAMP', 'DIST'):
+                continue
+            full = _join(d, rm.full_path(e[0], e[1]))
+            if e[0] == 'IGNORE':
+                if comp_prefix(path, full):
+                    ignored = True
+            elif full == path:
+                found.append(e)
+    if ignored and found:
+        return ('dontcare', 'IGNORE and file entry both apply')
+    if ignored:
+        return ('pass', 'ignored')
+    st = file_state(root, path)
+    if not found:
+        if st[0] == 'absent':
+            return ('pass', 'absent and unlisted')
+        if st[0] == 'enotdir':
+            return ('dontcare', 'beneath a regular file')
+        return ('mismatch', 'stray')
+    if len({(e[2], e[3]) for e in found}) > 1:
+        return ('dontcare', 'differing duplicate entries (first one found wins)')
+    why = entry_matches(st, found[0][2], dict(found[0][3]))
+    if isinstance(why, tuple) or why == 'enotdir':
+        return ('dontcare', str(why))
+    return ('pass', 'matches') if why is None else ('mismatch', why)
